@@ -7,20 +7,25 @@ PKG = "pkg/cluster"
 SAFETY = "INVARIANTS TypeOK RealStatesMonotone Distinct FirstNotEmpty FirstIsCurrent\n"
 
 
-def syncer_cfg(keys, watched, vals, writes, ticker=True, live=True, restarts=1, cancels=1, buf=2):
+def syncer_cfg(keys, watched, vals, writes, ticker=True, live=True, restarts=1, cancels=1, buf=2, scope=None, page1=None):
+    """scope: keys a pull returns (default = watched, the code); page1: keys read by the first request of a pull (default = all keys: one request)"""
     return ("SPECIFICATION %s\nCONSTANTS\n  Keys = %s\n  Watched = %s\n  Vals = %s\n  Buf = %d\n  MaxWrites = %d\n  MaxRestarts = %d\n"
-            "  MaxCancels = %d\n  Ticker = %s\n%s%s" % ("FairSpec" if live else "Spec", keys, watched, vals, buf, writes, restarts, cancels,
-                                                       "TRUE" if ticker else "FALSE", SAFETY, "PROPERTIES Converges\n" if live else ""))
+            "  MaxCancels = %d\n  Ticker = %s\n  PullScope = %s\n  Page1 = %s\n%s%s"
+            % ("FairSpec" if live else "Spec", keys, watched, vals, buf, writes, restarts, cancels, "TRUE" if ticker else "FALSE",
+               scope or watched, page1 or keys, SAFETY, "PROPERTIES Converges\n" if live else ""))
 
 
-TRACE_CFG = ("SPECIFICATION TSpec\nCONSTANTS\n  Keys = {\"k1\", \"k2\", \"k3\"}\n  Consumers = {\"s0\", \"s1\", \"s2\", \"s3\"}\n"
+# k1x: a key under the prefix whose name has the watched key k1 as a string prefix; fill: the filler keys of a big prefix
+# (a pseudo-key: "f1" = all of them with their values, "none" = none, anything else = a content the store never had)
+TRACE_CFG = ("SPECIFICATION TSpec\nCONSTANTS\n  Keys = {\"k1\", \"k1x\", \"k2\", \"k3\", \"fill\"}\n  Consumers = {\"s0\", \"s1\", \"s2\", \"s3\"}\n"
              "CONSTRAINT HWM\nPOSTCONDITION Accepted\nINVARIANTS IdxInRange ViewIsReal\n")
 
 
 def run(ctx):
     ctx.cov["rule"] = ("traces = recorded scenarios of real syncers (Sync / SyncRaw / SyncPrefix / SyncRawPrefix, fast and slow consumers) on an "
                        "embedded etcd under a seeded write history (bursts, same-value puts, delete-then-recreate, multi-key transactions, "
-                       "keys outside the prefix), half of them across a stop/start of the etcd server followed by a compaction (cancelled "
+                       "keys outside the prefix, a sibling key that has the watched key as a string prefix; some on a prefix of 1300 keys with "
+                       "never-repeated values and back-to-back transactions over its first and last key), half of them across a stop/start of the etcd server followed by a compaction (cancelled "
                        "watch); TLC rebuilds the store history from the writer's inv/ret events and checks every snapshot and the final "
                        "convergence claim against the contract; non-trivial = scenarios with at least 3 distinct contents or a fault")
     ctx.assumptions += ["the consumer's view starts as the empty content: an initially empty key/prefix needs no delivery (the code sends nothing then)",
@@ -48,6 +53,18 @@ def _mc(ctx):
     if r.ok or "Converges" not in (r.error or "") + r.out[-6000:]:
         ctx.inconclusive("Syncer: Converges is not violated without the ticker pull - the liveness check is vacuous (%s)" % r.error)
     ctx.notes.append("without the ticker pull TLC finds a behaviour violating Converges (lost watch event / cancelled watch)")
+    # what the clauses owe to the pull being exact and atomic (both decided on the real code by the trace validation):
+    # a single-key syncer whose pull also returns a sibling key re-sends an unchanged value ...
+    r = ctx.tlc_mc("Syncer", syncer_cfg(k2, '{"k1"}', '{"v1"}', 2, live=False, restarts=0, cancels=0, scope=k2).replace(SAFETY, "INVARIANTS TypeOK Distinct\n"), label="Sync(key) pulling more than the key",
+                   expect_ok=False, count=False, timeout=300, workers=2)
+    if r.ok or r.violated != "Distinct":
+        ctx.inconclusive("Syncer: a pull wider than the watched key does not violate Distinct in the model (%s %s)" % (r.violated, r.error))
+    # ... and a prefix pull made of two requests that are not pinned to one revision returns contents the store never had
+    r = ctx.tlc_mc("Syncer", syncer_cfg(k2, k2, '{"v1", "v2"}', 2, live=False, restarts=0, cancels=0, page1='{"k1"}').replace(SAFETY, "INVARIANTS TypeOK RealStatesMonotone\n"), label="SyncPrefix pulling in two unpinned pages",
+                   expect_ok=False, count=False, timeout=300, workers=2)
+    if r.ok or r.violated != "RealStatesMonotone":
+        ctx.inconclusive("Syncer: an unpinned two-page pull does not violate RealStatesMonotone in the model (%s %s)" % (r.violated, r.error))
+    ctx.notes.append("model: a single-key pull that also returns sibling keys violates Distinct; a two-page pull not pinned to one revision violates RealStatesMonotone")
 
 
 def _tv(ctx):
